@@ -13,14 +13,14 @@ type cgSym struct {
 	pred func(rune) bool
 }
 
-func nt(s string) cgSym             { return cgSym{nt: s} }
-func tl(s string) cgSym             { return cgSym{lit: s} }
-func tp(f func(rune) bool) cgSym    { return cgSym{pred: f} }
-func seq(xs ...cgSym) []cgSym       { return xs }
-func isDigitR(r rune) bool          { return r >= '0' && r <= '9' }
-func isEscapable(r rune) bool       { return strings.ContainsRune(reMetaChars, r) }
-func isAnyChar(r rune) bool         { return true } // "char = # all characters"
-func isUnescapedChar(r rune) bool   { return !isEscapable(r) }
+func nt(s string) cgSym           { return cgSym{nt: s} }
+func tl(s string) cgSym           { return cgSym{lit: s} }
+func tp(f func(rune) bool) cgSym  { return cgSym{pred: f} }
+func seq(xs ...cgSym) []cgSym     { return xs }
+func isDigitR(r rune) bool        { return r >= '0' && r <= '9' }
+func isEscapable(r rune) bool     { return strings.ContainsRune(reMetaChars, r) }
+func isAnyChar(r rune) bool       { return true } // "char = # all characters"
+func isUnescapedChar(r rune) bool { return !isEscapable(r) }
 
 var patGrammar = map[string][][]cgSym{}
 
